@@ -780,8 +780,16 @@ class MessageType:
 
         # Get the first field in the path.
         first_field = field_path[0]
+        # The keys of `fields` are the fields' Python names (see `Field.name`):
+        # reserved words are only suffixed in proto-plus messages.
         cursor = self.fields[
-            first_field + ("_" if first_field in utils.RESERVED_NAMES else "")
+            first_field
+            + (
+                "_"
+                if first_field in utils.RESERVED_NAMES
+                and self.meta.address.is_proto_plus_type
+                else ""
+            )
         ]
 
         # Base case: If this is the last field in the path, return it outright.
@@ -1804,7 +1812,12 @@ class Method:
                     continue
                 name = f.strip()
                 field = self.input.get_field(*name.split("."))
-                name += "_" if field.field_pb.name in utils.RESERVED_NAMES else ""
+                name += (
+                    "_"
+                    if field.field_pb.name in utils.RESERVED_NAMES
+                    and field.meta.address.is_proto_plus_type
+                    else ""
+                )
                 if cross_pkg_request and not field.is_primitive:
                     # This is not a proto-plus wrapped message type,
                     # and setting a non-primitive field directly is verboten.
